@@ -29,7 +29,7 @@ def sh(cmd, cwd=None, timeout=3600):
 def main():
     a = sys.argv[1:]
     out_dir, name, prop = a[0], a[1], a[2].upper()
-    feats, checks, keep = "", [prop], False
+    feats, checks, keep, detect = "", [prop], False, True
     i = 3
     while i < len(a):
         if a[i] == "--features":
@@ -38,6 +38,8 @@ def main():
             checks = [c.upper() for c in a[i + 1].split(",")]; i += 1
         elif a[i] == "--keep":
             keep = True
+        elif a[i] == "--no-detect":
+            detect = False  # only vet and file; detection is run later by lib/run_seeded.py
         i += 1
     patch = os.path.join(out_dir, f"{name}.patch.diff")
     demo = os.path.join(out_dir, f"{name}.demo.rs")
@@ -81,7 +83,7 @@ def main():
     print(json.dumps({k: (v if not isinstance(v, dict) else {kk: vv for kk, vv in v.items() if kk not in ("tail", "output")}) for k, v in log.items()}, indent=1))
     detection = {}
     if valid:
-        for c in checks:
+        for c in (checks if detect else []):
             rc, o = sh(f"python3 {ROOT}/lib/try_mutant.py {patch} {c}", cwd=ROOT)
             line = [l for l in o.splitlines() if l.startswith(c + ":")]
             detection[c] = line[-1][:600] if line else o[-300:]
@@ -97,6 +99,7 @@ def main():
             "needs_to_manifest": meta.get("needs_to_manifest", ""),
             "demo_features": feats,
             "vetting": log,
+            "checks_to_run": checks,
             "checks_run": detection,
             "origin": "independent sub-agent given only the property text and a scratch worktree",
         }
